@@ -1,7 +1,11 @@
 """Translator for property C14: constants of the feature-mask machinery -> coq/Gen/FeatureConsts.v.
 Sources: src/hb/ot_map.rs (MAX_BITS, MAX_VALUE, GLOBAL_BIT_SHIFT, first feature bit, flag constants),
 src/hb/buffer.rs (glyph_flag::DEFINED), src/hb/common.rs (the global range 0..u32::MAX of is_global).
-Every extractor has a shape guard; on mismatch the value becomes 0 and the guard is reported."""
+Every extracted CONSTANT has a shape guard; on mismatch the value becomes 0 and the guard is reported (tie
+broken). The exact text of the modelled statements (allocation conditions, set_masks range test, Feature::new
+arms, alternate index) is only recorded as `feat_stmt_shapes` (bit i = statement i still has the text the
+model was written from): a refactoring that keeps the behaviour must not raise an alarm - behaviour is
+what the correspondence checks - but the driver notes a changed statement in the evidence."""
 import re
 
 from tr_util import Gen, read
@@ -57,70 +61,41 @@ def run(repo, fails):
         v = _one(fails, nm, om, r"pub const %s: u32 = (0x[0-9A-Fa-f]+);" % nm)
         g.defN("f" + nm.lower(), v)
 
-    # the shape of the allocation conditions (a change here must be re-modelled, not silently accepted)
-    shapes = [
-        ("alloc_bits_needed", r"hb_ot_map_t::MAX_BITS\.min\(num_bits\)"),
-        ("alloc_num_bits", r"let num_bits = 8 \* core::mem::size_of_val\(&v\) as u32 - v\.leading_zeros\(\);"),
-        ("alloc_global_bit_case", r"let bits_needed = if info\.flags & F_GLOBAL != 0 && info\.max_value == 1 \{"),
-        ("alloc_drop_condition", r"if info\.max_value == 0 \|\| next_bit \+ bits_needed >= GLOBAL_BIT_SHIFT \{"),
-        ("alloc_fallback_condition", r"if !found && !info\.flags & F_HAS_FALLBACK != 0 \{"),
-        ("alloc_mask", r"let mask = \(1 << \(next_bit \+ bits_needed\)\) - \(1 << next_bit\);"),
-        ("alloc_advance", r"next_bit \+= bits_needed;"),
-        ("alloc_global_mask", r"global_mask \|= \(info\.default_value << shift\) & mask;"),
-    ]
-    sig = 0
-    for i, (nm, pat) in enumerate(shapes):
-        if len(re.findall(pat, om)) == 1:
-            sig |= 1 << i
-        else:
-            fails.append((nm, "expected exactly one occurrence of /%s/ in ot_map.rs" % pat))
-    g.defN("feat_alloc_shape_ok", 1 if sig == (1 << len(shapes)) - 1 else 0)
-
-    # set_masks: the comparison operators of the range test and the global shortcut
-    shapes = [
-        ("set_masks_range_test", r"if cluster_start <= info\.cluster && info\.cluster < cluster_end \{"),
-        ("set_masks_global", r"if cluster_start == 0 && cluster_end == core::u32::MAX \{"),
-        ("set_masks_update", r"info\.mask = \(info\.mask & not_mask\) \| value;"),
-    ]
-    okc = True
-    for nm, pat in shapes:
-        n = len(re.findall(pat, bf))
-        want = 2 if nm == "set_masks_update" else 1
-        if n != want:
-            okc = False
-            fails.append((nm, "expected %d occurrence(s) of /%s/ in buffer.rs, found %d" % (want, pat, n)))
-    g.defN("feat_set_masks_shape_ok", 1 if okc else 0)
-
-    # is_global: start == 0 && end == u32::MAX
+    # is_global: start == 0 && end == u32::MAX  (constants of the global range)
     ok = len(re.findall(r"self\.start == 0 && self\.end == u32::MAX", cm)) == 1
     if not ok:
         fails.append(("feature_is_global", "Feature::is_global is not `start == 0 && end == u32::MAX`"))
     g.defN("feat_global_start", 0)
     g.defN("feat_global_end", (1 << 32) - 1 if ok else 0)
 
-    # Feature::new bound arms (the known finding lives here: a change must be noticed)
-    arms = [
-        ("new_start_included", r"Bound::Included\(&included\) => included\.min\(max\) as u32,\s*\n\s*Bound::Excluded\(&excluded\) => excluded\.min\(max - 1\) as u32 \+ 1,\s*\n\s*Bound::Unbounded => 0,"),
-        ("new_end_arms", r"Bound::Included\(&included\) => included\.min\(max\) as u32,\s*\n\s*Bound::Excluded\(&excluded\) => excluded\.saturating_sub\(1\)\.min\(max\) as u32,\s*\n\s*Bound::Unbounded => max as u32,"),
+    # ---- statement texts the model was written from (recorded, not guards; see module docstring)
+    stmts = [
+        ("alloc_bits_needed", om, r"hb_ot_map_t::MAX_BITS\.min\(num_bits\)", 1),
+        ("alloc_num_bits", om, r"let num_bits = 8 \* core::mem::size_of_val\(&v\) as u32 - v\.leading_zeros\(\);", 1),
+        ("alloc_global_bit_case", om, r"let bits_needed = if info\.flags & F_GLOBAL != 0 && info\.max_value == 1 \{", 1),
+        ("alloc_drop_condition", om, r"if info\.max_value == 0 \|\| next_bit \+ bits_needed >= GLOBAL_BIT_SHIFT \{", 1),
+        ("alloc_fallback_condition", om, r"if !found && !info\.flags & F_HAS_FALLBACK != 0 \{", 1),
+        ("alloc_mask", om, r"let mask = \(1 << \(next_bit \+ bits_needed\)\) - \(1 << next_bit\);", 1),
+        ("alloc_advance", om, r"next_bit \+= bits_needed;", 1),
+        ("alloc_global_mask", om, r"global_mask \|= \(info\.default_value << shift\) & mask;", 1),
+        ("set_masks_range_test", bf, r"if cluster_start <= info\.cluster && info\.cluster < cluster_end \{", 1),
+        ("set_masks_global", bf, r"if cluster_start == 0 && cluster_end == core::u32::MAX \{", 1),
+        ("set_masks_update", bf, r"info\.mask = \(info\.mask & not_mask\) \| value;", 2),
+        ("new_start_arms", cm, r"Bound::Included\(&included\) => included\.min\(max\) as u32,\s*\n\s*Bound::Excluded\(&excluded\) => excluded\.min\(max - 1\) as u32 \+ 1,\s*\n\s*Bound::Unbounded => 0,", 1),
+        ("new_end_arms", cm, r"Bound::Included\(&included\) => included\.min\(max\) as u32,\s*\n\s*Bound::Excluded\(&excluded\) => excluded\.saturating_sub\(1\)\.min\(max\) as u32,\s*\n\s*Bound::Unbounded => max as u32,", 1),
+        ("alt_shift", alt, r"let shift = ctx\.lookup_mask\(\)\.trailing_zeros\(\);", 1),
+        ("alt_index", alt, r"let mut alt_index = \(ctx\.lookup_mask\(\) & glyph_mask\) >> shift;", 1),
+        ("alt_random", alt, r"if alt_index == hb_ot_map_t::MAX_VALUE && ctx\.random \{", 1),
+        ("alt_pick", alt, r"let idx = u16::try_from\(alt_index\)\.ok\(\)\?\.checked_sub\(1\)\?;", 1),
     ]
-    okn = True
-    for nm, pat in arms:
-        if len(re.findall(pat, cm)) != 1:
-            okn = False
-            fails.append((nm, "Feature::new bound arms changed shape (%s)" % nm))
-    g.defN("feat_new_shape_ok", 1 if okn else 0)
-
-    # alternate selection
-    shapes = [
-        ("alt_shift", r"let shift = ctx\.lookup_mask\(\)\.trailing_zeros\(\);"),
-        ("alt_index", r"let mut alt_index = \(ctx\.lookup_mask\(\) & glyph_mask\) >> shift;"),
-        ("alt_random", r"if alt_index == hb_ot_map_t::MAX_VALUE && ctx\.random \{"),
-        ("alt_pick", r"let idx = u16::try_from\(alt_index\)\.ok\(\)\?\.checked_sub\(1\)\?;"),
-    ]
-    oka = True
-    for nm, pat in shapes:
-        if len(re.findall(pat, alt)) != 1:
-            oka = False
-            fails.append((nm, "alternate_set.rs: expected exactly one /%s/" % pat))
-    g.defN("feat_alt_shape_ok", 1 if oka else 0)
+    sig = 0
+    changed = []
+    for i, (nm, src, pat, want) in enumerate(stmts):
+        if len(re.findall(pat, src)) == want:
+            sig |= 1 << i
+        else:
+            changed.append(nm)
+    g.raw("(* statements whose source text changed since the model was written: %s *)" % (", ".join(changed) or "none"))
+    g.defN("feat_stmt_shapes", sig)
+    g.defN("feat_stmt_count", len(stmts))
     return [g]
